@@ -90,6 +90,25 @@ func splitmix(x uint64) uint64 {
 	return x ^ (x >> 31)
 }
 
+// toFixedAny is toFixed without the exponent-range restriction (used for 2^-1075).
+func toFixedAny(s string) (string, bool) {
+	i := strings.IndexByte(s, 'e')
+	m, es := s[:i], s[i+1:]
+	ex, err := strconv.Atoi(es)
+	if err != nil || ex > 1200 || ex < -1200 {
+		return "", false
+	}
+	digits := strings.Replace(strings.TrimPrefix(m, "-"), ".", "", 1)
+	point := 1 + ex
+	switch {
+	case point <= 0:
+		return "0." + strings.Repeat("0", -point) + digits, true
+	case point >= len(digits):
+		return digits + strings.Repeat("0", point-len(digits)), true
+	}
+	return digits[:point] + "." + digits[point:], true
+}
+
 func pow10Big(q int) *big.Float {
 	p := new(big.Float).SetPrec(bigPrec)
 	p.SetInt(new(big.Int).Exp(big.NewInt(10), big.NewInt(int64(q)), nil))
@@ -172,6 +191,9 @@ func TestC04(t *testing.T) {
 			half := new(big.Float).SetPrec(bigPrec).SetFloat64(math.SmallestNonzeroFloat64)
 			half.Quo(half, big.NewFloat(2))
 			lits = append(lits, halfwayVariants(trimMantZeros(half.Text('e', 1100)))...)
+			if f, ok := toFixedAny(trimMantZeros(half.Text('e', 1100))); ok {
+				lits = append(lits, f, f+"000") // 2^-1075 in fixed notation: 0.000...(1074 digits)
+			}
 			lits = append(lits, "1.7976931348623157e308", "1.7976931348623158e308", "1.797693134862315807e308", "1.797693134862315808e308", "1.7976931348623159e308", "1.8e308",
 				"4.9406564584124654e-324", "2.4703282292062327e-324", "2.4703282292062328e-324", "2.4703282292062329e-324", "2.47e-324", "2.48e-324", "1e-323", "1e-324", "1e-325",
 				"0", "-0", "0.0", "-0.0", "0e0", "-0e-0", "0e999", "-0e999", "0.0e+5", "-0.0e5", "0e-999999999999", "0.000e+999999999999")
@@ -280,6 +302,30 @@ func TestC04(t *testing.T) {
 			}
 			if ex >= 0 && ex < 30 {
 				out = append(out, ms+strings.Repeat("0", ex))
+			}
+			return out
+		})
+		// 3c. equivalent spellings: the same value written with the decimal point shifted k places
+		// left (leading zeros after "0.") or right (trailing zeros) and a compensating exponent,
+		// for values over the whole range and especially near the overflow threshold
+		rapidLits("shifted-spellings", e.cfg.N(5000, 500000), func(rt *rapid.T) []string {
+			x := drawFloat(rt)
+			if rapid.IntRange(0, 2).Draw(rt, "neartop?") == 0 {
+				x = math.Float64frombits(0x7fe0000000000000 - uint64(rapid.IntRange(0, 1<<20).Draw(rt, "belowtop"))<<rapid.IntRange(0, 32).Draw(rt, "sh"))
+				if rapid.Bool().Draw(rt, "max") {
+					x = math.MaxFloat64
+				}
+			}
+			nd := rapid.IntRange(17, 40).Draw(rt, "digits")
+			lit := strconv.FormatFloat(x, 'e', nd, 64) // d.ddd...e+XX
+			i := strings.IndexByte(lit, 'e')
+			digits := strings.Replace(lit[:i], ".", "", 1)
+			ex, _ := strconv.Atoi(lit[i+1:])
+			k := rapid.IntRange(0, 45).Draw(rt, "shift")
+			out := []string{
+				fmt.Sprintf("0.%s%se%d", strings.Repeat("0", k), digits, ex+k+1),
+				fmt.Sprintf("%s%se%d", digits, strings.Repeat("0", k), ex-len(digits)+1-k),
+				fmt.Sprintf("%s.%se%d", digits[:1+k%len(digits)], digits[1+k%len(digits):]+"0", ex-k%len(digits)),
 			}
 			return out
 		})
